@@ -140,6 +140,9 @@ def run(ctx: Ctx) -> None:
     ctx.check("C15.R6", "utils:raise_shutdown", "await trigger(); raise ShutdownError()", body == ["await shutdown_event()", "raise ShutdownError()"], f"raise_shutdown body: {body}", rsd)
 
     from ..core import Alias
+    from . import c07
+
+    c07.run(Alias(ctx, "C15.R8", "HTTP/2: the idleness that decides the GOAWAY is the connection's idle predicate computed after the finished stream was removed (C07.R1 on stream_send)", only={"C07.R1"}, where=["H2Protocol.stream_send"]))
     from . import c16
 
     c16.run(Alias(ctx, "C15.R7", "both workers realise the same idle-timer skeleton: on `terminated` the timer closes the connection at once (C16.R2 on _idle_timeout/_initiate_server_close; C16.R1 on WorkerContext)", only={"C16.R1", "C16.R2"}, where=["_idle_timeout", "_initiate_server_close", "WorkerContext"]))
